@@ -513,6 +513,72 @@ void lockstep(const std::vector<int> &path_prefix, int depth, Node &d, Node &w, 
   }
 }
 
+// ---- C16 (iv): linear histories without any live copy -----------------------
+// The DFS above works on copies of the parent node, so the copy-on-write wrapper never is the
+// sole owner of its state. Here every history is replayed from scratch, in place, on one object
+// per flavour: the only copies alive are those the history itself makes (r1:=r0).
+bool linear_run(const std::vector<int> &path) {
+  FLAVOR = "direct"; Node d = initial_node();
+  FLAVOR = "wrapped"; Node w = initial_node();
+  FLAVOR = "ref"; Node r = initial_node();
+  std::vector<int> p;
+  for (int oi : path) {
+    p.push_back(oi);
+    FLAVOR = "direct";
+    Status s1 = apply_op(ALPHA[oi], d, p);
+    FLAVOR = "wrapped";
+    Status s2 = apply_op(ALPHA[oi], w, p);
+    FLAVOR = "ref";
+    Status s3 = apply_op(ALPHA[oi], r, p);
+    FLAVOR = "linear";
+    if (s1 != s2 || s1 != s3) {
+      if (s1 == ST_OK || s2 == ST_OK || s3 == ST_OK)
+        report("C16:wrapper-status-differs:linear", p, "direct/wrapped/ref status " + std::to_string(s1) + std::to_string(s2) + std::to_string(s3));
+      return false;
+    }
+    if (s1 != ST_OK) return false;
+    n_nodes++;
+    try {
+      bool same = d.r[0].box->is_bottom() == w.r[0].box->is_bottom() && d.r[0].box->is_bottom() == r.r[0].box->is_bottom();
+      for (int v : {VX, VY, VZ})
+        same = same && d.r[0].box->at(v) == w.r[0].box->at(v) && d.r[0].box->at(v) == r.r[0].box->at(v);
+      same = same && d.r[0].box->print() == w.r[0].box->print() && d.r[0].box->print() == r.r[0].box->print();
+      if (!same) {
+        report("C16:wrapper-describes-something-else:linear", p, "direct " + d.r[0].box->print() + " wrapped " + w.r[0].box->print() + " ref " + r.r[0].box->print());
+        return false;
+      }
+    } catch (std::runtime_error &e) {
+      if (!is_unsupported("query", e.what())) report("abort-in-query", p, e.what());
+      return false;
+    }
+  }
+  return true;
+}
+std::vector<int> linear_alphabet() {
+  const char *names[] = {"x:=0", "x:=x+1", "y:=2", "y:=x", "assume(x<=0)", "assume(x>=1)", "forget(x)", "r0:=r0|r1", "r0:=r0||r1", "r1:=r0", "swap"};
+  std::vector<int> sub;
+  for (auto n : names)
+    for (int i = 0; i < (int)ALPHA.size(); i++)
+      if (ALPHA[i].op.name == n) { sub.push_back(i); break; }
+  return sub;
+}
+void linear_all(int depth) {
+  std::vector<int> sub = linear_alphabet();
+  uint64_t total = 1;
+  for (int i = 0; i < depth; i++) total *= sub.size();
+  uint64_t mine_count = 0;
+  for (uint64_t c = 0; c < total; c++) {
+    if (!vp::mine(c)) continue;
+    if ((++mine_count & 0xff) == 0 && vp::past_deadline()) { vp::incomplete(DOMNAME + " " + CFGNAME + " linear histories"); return; }
+    std::vector<int> path;
+    uint64_t t = c;
+    for (int i = 0; i < depth; i++) { path.push_back(sub[t % sub.size()]); t /= sub.size(); }
+    FLAVOR = "linear";
+    vp::set_case(spec_of(path));
+    linear_run(path);
+  }
+}
+
 // ---- C04: all ordered pairs of a pool of reachable values ----------------
 struct PoolVal {
   std::unique_ptr<DomBox> box;
@@ -671,7 +737,9 @@ int main(int argc, char **argv) {
       FLAVOR = f[3];
       std::vector<int> path;
       for (auto &t : vp::split(f[4], '.')) path.push_back(atoi(t.c_str()));
-      if (FLAVOR == "lockstep") {
+      if (FLAVOR == "linear") {
+        linear_run(path);
+      } else if (FLAVOR == "lockstep") {
         MAXD = (int)path.size();
         // re-run the lock-step exploration restricted to this path by brute force
         FLAVOR = "direct"; Node d = initial_node();
@@ -769,6 +837,11 @@ int main(int argc, char **argv) {
         FLAVOR = "ref"; Node r = initial_node();
         std::vector<int> p;
         lockstep({}, 0, d, w, r, p);
+      } else if (mode == "linear") {
+        if (e.name != "intervals" && e.name != "split_dbm" && e.name != "term_int" && !(th && (e.name == "split_oct" || e.name == "bool_int"))) continue;
+        if (&cfg != &cfgs[0]) continue; // the wrappers do not depend on the domain parameters
+        ALPHA = build_alphabet(e.caps, true);
+        linear_all(th ? 6 : 5);
       } else if (mode == "pairs") {
         ALPHA = build_alphabet(e.caps, false);
         FLAVOR = "direct";
